@@ -161,7 +161,10 @@ def evalq(q, env, f=None):
     f = f or F()
     if isinstance(q, Angle):
         c = evalq(q.c, env, f)
-        s = evalq(q.s, env, f)
+        if callable(getattr(q, '_s', None)):
+            s = math.sqrt(max(0.0, 1.0 - c * c))       # lazy sine of an arccos result (window [0, pi]): do not create new generators here
+        else:
+            s = evalq(q.s, env, f)
         th = math.atan2(s, c)
         if q.lo is not None:
             lo, hi = float(q.lo) * math.pi, float(q.hi) * math.pi
